@@ -407,6 +407,20 @@ def roundtrip_case(rng, kind, nitems, arr_max=100, p_switch=0.2):
             total += WIDTH[ty]
         elif r < 0.82:
             n = rng.choice([0, 1, 2, 3, rng.randrange(0, arr_max + 1), rng.randrange(0, arr_max + 1), arr_max])
+            if rng.random() < 0.35:
+                # the same Array<T> object written twice (or three times), possibly with a switch in between
+                n = min(n, 40)
+                slot = rng.randrange(0, 4)
+                wl.append("av %d %s" % (slot, arr_line(rng, ty, n)[3:]))
+                for rep in range(rng.choice([2, 2, 3])):
+                    if rep and rng.random() < 0.6:
+                        o = rng.choice(ORDERS)
+                        wl.append("endian " + o)
+                        rl.append("rendian " + o)
+                    wl.append("wv %d" % slot)
+                    rl.extend(["r " + ty] * n)
+                    total += n * WIDTH[ty]
+                continue
             wl.append(arr_line(rng, ty, n))
             if rng.random() < 0.25:
                 rl.append("rb %d" % (n * WIDTH[ty]))
@@ -487,10 +501,29 @@ def array_grid(rng, lengths):
     return cases
 
 
+def reuse_grid(rng):
+    """one Array<T> object per (class, element type, start order) written repeatedly: same order twice, then after a
+    switch to each other order, then back — the caller's array is dumped after every write"""
+    cases = []
+    for kind in KINDS:
+        for ty in TYPES:
+            for o in ORDERS:
+                n = rng.choice([1, 2, 3, 5, 8])
+                others = [x for x in ORDERS if x != o]
+                c = ["new %s %s" % (kind, o), "av 0 %s" % arr_line(rng, ty, n)[3:], "wv 0", "wv 0"]
+                rd = ["reader " + o] + ["r " + ty] * (2 * n)
+                for o2 in others + [o]:
+                    c += ["endian " + o2, "wv 0"]
+                    rd += ["rendian " + o2] + ["r " + ty] * n
+                cases.append(c + rd + ["r u8"])
+    return cases
+
+
 def gen(rng, tier):
     quick = tier == "quick"
     cases = []
     cases += scalar_grid()
+    cases += reuse_grid(rng)
     cases += array_grid(rng, [0, 1, 2, 3, 7, 8, 9, 31, 32, 33, 64, 99, 100] if quick else list(range(0, 101)))
     for kind in KINDS:
         for i in range(300 if quick else 4000):
@@ -543,7 +576,8 @@ def extra(ctx):
 
 
 def nontrivial(case):
-    wrote = any(l.startswith(("w ", "wa ")) and WIDTH.get(l.split()[1], 1) > 1 and l.split()[-1] != "-" for l in case)
+    wrote = any(l.startswith(("w ", "wa ")) and WIDTH.get(l.split()[1], 1) > 1 and l.split()[-1] != "-" for l in case) or \
+        any(l.startswith("av ") and WIDTH.get(l.split()[2], 1) > 1 and l.split()[-1] != "-" for l in case)
     read = any(l.startswith("r ") for l in case)
     return wrote and read
 
@@ -551,11 +585,13 @@ def nontrivial(case):
 def distribution(cases):
     d = {"cases_by_class": {}, "ops": {}, "scalar_writes_by_type": {}, "array_writes_by_type": {}, "array_len_hist": {},
          "writes_by_order_in_force": {}, "reads_by_order_in_force": {}, "order_switches_mid_stream": 0, "nan_values": 0,
-         "min_max_int_values": 0, "values_per_case_hist": {}, "max_values_in_a_case": 0}
+         "min_max_int_values": 0, "values_per_case_hist": {}, "max_values_in_a_case": 0,
+         "array_variable_writes": {}, "array_rewrites_same_object": 0, "array_rewrites_after_order_switch": 0}
     for c in cases:
         kind = None
         we = re_ = None
         nvals = 0
+        slots = {}
         for l in c:
             t = l.split()
             op = t[0]
@@ -594,6 +630,20 @@ def distribution(cases):
                 d["array_len_hist"][b] = d["array_len_hist"].get(b, 0) + 1
             elif op in ("ws", "wb", "wz"):
                 nvals += 1
+            elif op == "av":
+                slots[int(t[1]) % 4] = [t[2], 0, None]
+            elif op == "wv":
+                nvals += 1
+                sl = slots.get(int(t[1]) % 4)
+                if sl:
+                    sl[1] += 1
+                    key = "%s@%s" % (sl[0], we)
+                    d["array_variable_writes"][key] = d["array_variable_writes"].get(key, 0) + 1
+                    if sl[1] > 1:
+                        d["array_rewrites_same_object"] += 1
+                        if sl[2] != we:
+                            d["array_rewrites_after_order_switch"] += 1
+                    sl[2] = we
             elif op == "r":
                 d["reads_by_order_in_force"][re_] = d["reads_by_order_in_force"].get(re_, 0) + 1
         b = "1-8" if nvals <= 8 else "9-32" if nvals <= 32 else "33-64" if nvals <= 64 else ">64"
@@ -635,7 +685,7 @@ def _reference(line):
     try:
         if op == "new":
             s.clear()
-            s.update(kind=t[1], we=(t[2] if t[2] != "def" else ("little" if t[1] == "sb" else "native")), out=b"", reading=False)
+            s.update(kind=t[1], we=(t[2] if t[2] != "def" else ("little" if t[1] == "sb" else "native")), out=b"", reading=False, vars={})
             return "ok"
         if s.get("kind") is None:
             return None
@@ -644,6 +694,26 @@ def _reference(line):
                 return "closed"
             s["we"] = t[1]
             return "ok"
+        if op == "av":
+            s["vars"][int(t[1]) % 4] = (t[2], unhex(t[3]))
+            return "ok"
+        if op == "wv":
+            if s["reading"]:
+                return "closed"
+            if int(t[1]) % 4 not in s["vars"]:
+                return "no-var"
+            ty, blob = s["vars"][int(t[1]) % 4]
+            w = WIDTH[ty]
+            b = b""
+            dump = b""
+            for i in range(0, len(blob), w):
+                v = int.from_bytes(blob[i:i + w], "big")
+                if ty == "b":
+                    v = 1 if v else 0
+                b += v.to_bytes(w, _order(s["we"]))
+                dump += v.to_bytes(w, "big")      # the program's array keeps its values
+            s["out"] += b
+            return hexs(b) + " " + hexs(dump)
         if op in ("w", "wa", "wb", "ws", "wz"):
             if s["reading"]:
                 return "closed"
@@ -720,6 +790,12 @@ def simplify_line(line):
     """shrinking: shorter arrays / strings"""
     t = line.split()
     out = []
+    if t[0] == "av" and t[3] != "-":
+        w = WIDTH.get(t[2], 1)
+        n = len(t[3]) // 2 // w
+        for k in (1, n // 2):
+            if 0 < k < n:
+                out.append("av %s %s %s" % (t[1], t[2], t[3][:2 * w * k]))
     if t[0] == "wa" and t[2] != "-":
         w = WIDTH.get(t[1], 1)
         n = len(t[2]) // 2 // w
@@ -730,7 +806,8 @@ def simplify_line(line):
 
 
 RULE = ("case = one stream object (StreamBuffer+StreamBufferReader | File | Socket over a socketpair): a write history of typed "
-        "scalars (12 C++ types, arbitrary bit patterns incl. NaN payloads, min/max), Array<T> of 0..100 elements, String/ByteArray/"
+        "scalars (12 C++ types, arbitrary bit patterns incl. NaN payloads, min/max), Array<T> of 0..100 elements (also one Array object written "
+        "repeatedly, with and without a switch in between; the caller's array is dumped after every such write and must be unchanged), String/ByteArray/"
         "const char*, with byte-order switches (BIG/LITTLE/NATIVE/default) at random points; every write prints the bytes it appended "
         "(observed outside asl); then a reader over everything written reads the same types back in the same orders (or unrelated "
         "types/orders in the cross cases). non-trivial = distinct case that writes at least one multi-byte value and reads a scalar")
@@ -762,9 +839,12 @@ LEVEL_TEXT = ("Proved in Lean 4 for all three classes, all 12 scalar types, all 
               "bytes (switch_affects_only_later) and, on arbitrary data, only later reads (read_switch_affects_only_later); StreamBufferReader/File/Socket reads consume sizeof(T) bytes and return the number they denote "
               "(scalar_read_spec, for arbitrary data), read2/4/8 index only inside the bytes they consume; reading the same types in the same "
               "orders returns the original values and leaves the rest untouched for one value (get_put) and for whole histories (read_back); "
+              "writing the same array again, also after a switch, gives its canonical bytes again (array_rewrite_canonical); "
               "length-prefixed strings read back (string_read_back). The two switch theorems and the raw-byte cases of read_back hold by the shape "
               "of the model (setEndian writes/reads no byte; ByteArray/String/const char* writes are the bytes themselves; read(n)/skip are take/drop): "
-              "that the real setEndian, raw-byte, String and skip transport behave so is validated by the correspondence check only, plus a "
+              "likewise a model write cannot alter its argument (it returns only the new order and the bytes): that the real operator<< leaves the "
+              "caller's const T& / const Array<T>& untouched is observed by the harness after every write (one Array object written repeatedly, dumped each time). "
+              "That the real setEndian, raw-byte, String and skip transport behave so is validated by the correspondence check only, plus a "
               "translator shape check of those overloads. The byte-order tests, Array byte counts, read2/4/8 shift/index terms, readN "
               "dispatch, swapBytes' index expression, ASL_OTHER_ENDIAN, host byte order and sizeof are regenerated from /repo on every run (G); the overload "
               "set actually selected by C++ for each type and the I/O plumbing are tied to the model by the correspondence check (K) on the three "
